@@ -22,7 +22,12 @@ def known():
     out = ["| id | property | matched by | what fails |", "|---|---|---|---|"]
     for k in kf:
         if k.get("status") == "known":
-            m = "race-report call sites" if k.get("kind") == "race" else "family `%s`, `kf` code %s (computed in Coq on the case input)" % (k.get("family"), k.get("kf_code"))
+            if k.get("kind") == "race":
+                m = "race-report call sites"
+            elif k.get("invariant_class"):
+                m = "family `%s`, harness invariant of class `%s` (any other broken invariant is a violation)" % (k.get("family"), k.get("invariant_class"))
+            else:
+                m = "family `%s`, `kf` code %s (computed in Coq on the case input)" % (k.get("family"), k.get("kf_code"))
             out.append("| %s | %s | %s | %s |" % (k["id"], k["property"], m, k["what"].replace("|", "\\|")))
     return "\n".join(out)
 
